@@ -26,6 +26,7 @@ func runC14(c *core.Ctx) {
 	c.RuleDoc("R14.6", "in a move, the delete of the old name is conditional on the store of the new one")
 	c.RuleDoc("R14.5", "per-path result slices keep the input's length on the failure path")
 	c.RuleDoc("R14.7", "the error of a run-once (sync.Once) evaluation is memoised in a field, not in a local")
+	c.RuleDoc("R14.11", "a failure of a whole multi-path look-up is reported for every path")
 	c.RuleDoc("R14.10", "a memoised (value, error) pair is handed out together")
 	c.RuleDoc("R14.9", "a function handed a non-nil error returns one, except on the ErrNotExist/ErrExist look-up edges")
 	c.RuleDoc("R14.8", "ErrNotExist is answered only where the operation's own error was found nil")
@@ -43,6 +44,7 @@ func runC14(c *core.Ctx) {
 			r14OnceKeepsError(c, p)
 			r14ErrBeforeNotExist(c, p)
 			r14ErrorParams(c, p)
+			r14FailureForEveryPath(c, p)
 		}
 	}
 	c.Floor("R14.1", 4)
@@ -55,6 +57,7 @@ func runC14(c *core.Ctx) {
 	c.Floor("R14.8", 1)
 	c.Floor("R14.9", 3)
 	c.Floor("R14.10", 1)
+	c.Floor("R14.11", 2)
 }
 
 func pkgFuncs(p *load.Program, rel string) []*ssa.Function {
@@ -663,7 +666,7 @@ func r14ParallelShape(c *core.Ctx, p *load.Program) {
 			key := fmt.Sprintf("%s|result#%d-length", fname(fn), ri)
 			bad := ""
 			for _, r := range rets {
-				if !canon[r.Results[ri]] {
+				if !canon[sliceThroughIdentity(p, r.Results[ri])] {
 					bad = p.Pos(r.Pos())
 				}
 			}
@@ -1073,4 +1076,83 @@ func r14ErrorParams(c *core.Ctx, p *load.Program) {
 	if n < 3 {
 		c.Hard("anchor: functions of keyvalue with an error parameter and an error result (found %d)", n)
 	}
+}
+
+// r14FailureForEveryPath (R14.11): a function of package keyvalue that answers several paths with parallel slices
+// ([]T, []error) never reports a failure of the whole look-up in one constant slot of the error slice: callers index
+// the results by path, so slot k != 0 would read "no error" next to a nil value (OpenFile with FlagCreate reads
+// errs[1] for the parent and dereferences files[1]).
+func r14FailureForEveryPath(c *core.Ctx, p *load.Program) {
+	n := 0
+	for _, fn := range pkgFuncs(p, "keyvalue") {
+		if fn.Parent() != nil || fn.Blocks == nil {
+			continue
+		}
+		res := fn.Signature.Results()
+		if res.Len() != 2 {
+			continue
+		}
+		sl, ok := res.At(1).Type().Underlying().(*types.Slice)
+		if !ok || !ssax.IsErrorType(sl.Elem()) {
+			continue
+		}
+		if _, ok := res.At(0).Type().Underlying().(*types.Slice); !ok {
+			continue
+		}
+		n++
+		key := fname(fn) + "|whole-look-up-failure-reported-for-every-path"
+		bad := ""
+		ssax.Instrs(fn, func(ins ssa.Instruction) {
+			st, ok := ins.(*ssa.Store)
+			if !ok || !ssax.IsErrorType(st.Val.Type()) {
+				return
+			}
+			ia, ok := st.Addr.(*ssa.IndexAddr)
+			if !ok {
+				return
+			}
+			if _, isK := ssax.ConstInt(ia.Index); isK {
+				bad = p.Pos(st.Pos())
+			}
+		})
+		c.Check(bad == "", "R14.11", key, p.Pos(fn.Pos()), "no error is stored into a constant slot of the per-path error slice",
+			fmt.Sprintf("%s stores an error into one constant slot of its per-path error slice at %s: the other paths' slots stay nil next to nil values — a caller that indexes by path (OpenFile with FlagCreate: the parent is path #1) takes the parent for present and dereferences the nil entry (panic) when the store's failure happens to match ErrNotExist", fname(fn), bad))
+	}
+	if n < 2 {
+		c.Hard("anchor: parallel-slice look-ups in keyvalue (found %d)", n)
+	}
+}
+
+// sliceThroughIdentity: v is f(…, x, …) where the module function f returns its parameter x on every path (a helper
+// that fills the slice and hands it back): denotes x.
+func sliceThroughIdentity(p *load.Program, v ssa.Value) ssa.Value {
+	cl, ok := v.(*ssa.Call)
+	if !ok {
+		return v
+	}
+	callee := ssax.StaticCallee(cl)
+	if callee == nil || !p.InModule(callee) || callee.Blocks == nil || callee.Signature.Results().Len() != 1 {
+		return v
+	}
+	idx := -1
+	for _, r := range ssax.Returns(callee) {
+		prm, ok := r.Results[0].(*ssa.Parameter)
+		if !ok {
+			return v
+		}
+		k := -1
+		for i, q := range callee.Params {
+			if q == prm {
+				k = i
+			}
+		}
+		if k < 0 || (idx >= 0 && idx != k) {
+			return v
+		}
+		idx = k
+	}
+	if idx < 0 || idx >= len(cl.Call.Args) {
+		return v
+	}
+	return cl.Call.Args[idx]
 }
